@@ -763,6 +763,10 @@ static int _yr_compiler_define_variable(
   if (external->identifier == NULL)
     return ERROR_INVALID_ARGUMENT;
 
+  if (external->type == EXTERNAL_VARIABLE_TYPE_STRING &&
+      external->value.s == NULL)
+    return ERROR_INVALID_ARGUMENT;
+
   object = (YR_OBJECT*) yr_hash_table_lookup(
       compiler->objects_table, external->identifier, NULL);
 
@@ -792,9 +796,6 @@ static int _yr_compiler_define_variable(
 
   if (external->type == EXTERNAL_VARIABLE_TYPE_STRING)
   {
-    if (external->value.s == NULL)
-      return ERROR_INVALID_ARGUMENT;
-
     FAIL_ON_ERROR(_yr_compiler_store_string(compiler, external->value.s, &ref));
 
     FAIL_ON_ERROR(yr_arena_make_ptr_relocatable(
